@@ -11,10 +11,13 @@ from __future__ import annotations
 import glob
 import json
 import multiprocessing
+import resource
+import signal
 import os
 import re
 import time
-from concurrent.futures import ThreadPoolExecutor
+from concurrent.futures import ProcessPoolExecutor, ThreadPoolExecutor
+from concurrent.futures.process import BrokenProcessPool
 from fractions import Fraction
 
 from ..deviations import active, tla_set
@@ -149,9 +152,35 @@ DIRECT_SCALES = [1, 8, Fraction(1, 4), 64]
 _W = {}
 
 
+class AnalysisTimeout(Exception):
+    pass
+
+
+def _alarm(signum, frame):
+    raise AnalysisTimeout()
+
+
 def _init_worker(mode, known_dev):
+    """worker processes: a memory ceiling (a runaway analysis raises MemoryError instead of taking the machine down) and
+    an alarm handler (an analysis that does not come back is reported, not waited for)"""
     _W["mode"] = mode
     _W["dev"] = known_dev
+    try:
+        resource.setrlimit(resource.RLIMIT_AS, (6 << 30, 6 << 30))
+    except (ValueError, OSError):
+        pass
+    signal.signal(signal.SIGALRM, _alarm)
+
+
+def pool_map(fn, jobs, mode, dev):
+    """map over a process pool; a worker that dies (killed, out of memory) is a machinery failure, never a hang"""
+    ctx = multiprocessing.get_context("fork")
+    try:
+        with ProcessPoolExecutor(min(16, os.cpu_count() or 4), mp_context=ctx, initializer=_init_worker,
+                                 initargs=(mode, dev)) as ex:
+            return list(ex.map(fn, jobs))
+    except BrokenProcessPool as e:
+        raise MachineryError("a replay worker process died (%s)" % e)
 
 
 def short(rec):
@@ -179,10 +208,18 @@ def replay_chunk(chunk):
         for si, scale in enumerate(DIRECT_SCALES):
             for rev in ((False, True) if si == 0 else (si % 2 == 1,)):
                 try:
-                    cont, chars, items, la = R.analyze_direct(rec, scale, rev=rev)
+                    signal.alarm(60)
+                    try:
+                        cont, chars, items, la = R.analyze_direct(rec, scale, rev=rev)
+                    finally:
+                        signal.alarm(0)
                 except MachineryError:
                     raise
-                except Exception as e:  # the analysis itself failed: termination / totality
+                except AnalysisTimeout:
+                    res["viol"].append(("no-termination", "analyze of a page of %d items did not return within 60 s" % len(rec["page"]),
+                                        dict(short(rec), scale=str(scale))))
+                    continue
+                except (Exception, MemoryError) as e:  # the analysis itself failed: termination / totality
                     res["viol"].append(("exception:" + type(e).__name__,
                                         "analyze raised %s: %s" % (type(e).__name__, str(e)[:200]),
                                         dict(short(rec), scale=str(scale))))
@@ -295,6 +332,11 @@ def replay_pdf_chunk(job):
     return res
 
 
+def _replay_any(job):
+    kind, arg = job
+    return kind, (replay_chunk(arg) if kind == "d" else replay_pdf_chunk(arg))
+
+
 def direction_a(ck, mode, invariants, dev, pdf_every, pdf_scales, pdf_text_every, extra_jobs=()):
     outs = tlc_direction_a(ck, invariants, dev, extra_jobs)
     t0 = time.time()
@@ -324,12 +366,9 @@ def direction_a(ck, mode, invariants, dev, pdf_every, pdf_scales, pdf_text_every
     for j, lst in enumerate(byp.values()):
         for o in range(0, len(lst), 150):
             jobs.append((lst[o:o + 150], pdf_scales, (len(jobs) % pdf_text_every) == 0))
-    ctx = multiprocessing.get_context("fork")
-    with ctx.Pool(nproc, initializer=_init_worker, initargs=(mode, dev)) as pool:
-        r1 = pool.map_async(replay_chunk, [c for c in chunks if c])
-        r2 = pool.map_async(replay_pdf_chunk, jobs)
-        res1 = r1.get()
-        res2 = r2.get()
+    both = pool_map(_replay_any, [("d", c) for c in chunks if c] + [("p", j) for j in jobs], mode, dev)
+    res1 = [r for k, r in both if k == "d"]
+    res2 = [r for k, r in both if k == "p"]
     tot = {"n": 0, "runs": 0, "dev": 0, "tie": 0, "tie_real": 0, "colpage": 0, "scalecmp": 0, "pred_evals": 0}
     mismatches = []
     for r in res1:
@@ -401,13 +440,35 @@ def record_file(args):
     la = LAParams(**la_kwargs)
     out = {"path": path, "la": la_kwargs, "traces": [], "fail08": [], "fail09": [], "error": None, "containers": 0,
            "skipped": 0, "glyphs": 0}
+    rec = O.Recorder(max_heap_boxes=max_heap_boxes)
     try:
-        with O.Recorder(max_heap_boxes=max_heap_boxes) as rec:
-            for _ in extract_pages(path, laparams=la, maxpages=maxpages):
-                pass
+        signal.alarm(240)
+        try:
+            with rec:
+                for _ in extract_pages(path, laparams=la, maxpages=maxpages):
+                    pass
+        finally:
+            signal.alarm(0)
     except MachineryError:
         raise
+    except AnalysisTimeout:
+        out["fail08"].append(("no-termination", "layout analysis of the first pages did not return within 240 s",
+                              "%s %s" % (os.path.relpath(path, "/repo"), la_kwargs)))
+        return out
+    except MemoryError:
+        out["fail08"].append(("no-termination", "layout analysis ran out of memory (6 GiB ceiling)",
+                              "%s %s" % (os.path.relpath(path, "/repo"), la_kwargs)))
+        return out
     except Exception as e:
+        # a failure inside the layout analysis is a finding of C08 (analysis must come back); failures elsewhere
+        # (parsing, fonts) belong to other properties
+        import traceback
+        tb = traceback.extract_tb(e.__traceback__)
+        if any(fr.filename.endswith("layout.py") for fr in tb) and rec.stack is not None and \
+                any(fr.name in ("analyze", "group_objects", "group_textlines", "group_textboxes") for fr in tb):
+            out["fail08"].append(("exception:" + type(e).__name__, "layout analysis raised %s: %s" % (type(e).__name__, str(e)[:160]),
+                                  "%s %s" % (os.path.relpath(path, "/repo"), la_kwargs)))
+            return out
         out["error"] = "%s: %s" % (type(e).__name__, str(e)[:200])
         return out
     for i, run in enumerate(rec.runs):
@@ -437,9 +498,7 @@ def record_samples(ck, mode, corrupt=None):
     maxpages = 3 if ck.tier == "quick" else 12
     variants = LA_VARIANTS[:3] if ck.tier == "quick" else LA_VARIANTS
     jobs = [(f, v, maxpages, 30 if ck.tier == "quick" else 60) for f in files for v in variants]
-    ctx = multiprocessing.get_context("fork")
-    with ctx.Pool(min(16, os.cpu_count() or 4)) as pool:
-        results = pool.map(record_file, jobs, chunksize=1)
+    results = pool_map(record_file, jobs, mode, [])
     traces = []
     rounding = {}
     errors = 0
